@@ -138,25 +138,13 @@ func ruleR52(c *Ctx) {
 					c.Check(has, owner, x, "flowAction answered after a probe ("+origin+")", what, fmt.Sprintf("literal sets %s: %v", fld, has))
 				}
 			case *ast.CallExpr:
-				if depth >= 2 {
+				if depth >= 3 {
 					return true
 				}
+				// helpers the handler calls (and theirs): any of them may build the action that is answered
 				if cf := p.byObj[callee(in, x)]; cf != nil && cf.Pkg.PkgPath == pathBpmn && cf.Body != nil && !seenFn[cf] {
-					// only helpers that hand out actions are of interest
-					gives := false
-					cin := info(cf)
-					ast.Inspect(cf.Body, func(z ast.Node) bool {
-						if cl, ok := z.(*ast.CompositeLit); ok {
-							if nt := namedOf(cin.TypeOf(cl)); nt != nil && nt.Obj() == fa.Obj() {
-								gives = true
-							}
-						}
-						return !gives
-					})
-					if gives {
-						seenFn[cf] = true
-						visitBody(cf, "via "+cf.QName(), cf.Body, depth+1)
-					}
+					seenFn[cf] = true
+					visitBody(cf, "via "+cf.QName(), cf.Body, depth+1)
 				}
 			}
 			return true
